@@ -12,11 +12,12 @@ open Lungo.C10
 #print axioms ne_agrees
 #print axioms in_agrees
 #print axioms nin_agrees
+#print axioms exists_arg_is_truthiness
 #print axioms exists_agrees
 #print axioms type_agrees
 #print axioms type_null_skips_missing
 #print axioms size_agrees_partial
-#print axioms all_agrees_partial
+#print axioms all_agrees
 #print axioms mod_agrees
 #print axioms bits_agrees
 #print axioms operator_agrees
